@@ -19,6 +19,9 @@ EXTRA_VALIDATORS = ["check::get_not_depended_on_nonterminals", "check::get_nonte
 CORES = ["dfa::do_minimize", "dfa::find_bounds", "dfa::keep_only_states_with_input_transitions", "dfa::eliminate_nonaccepting_states_without_output_transitions",
          "dfa::renumber_states", "dfa::DFA::make_transitions_image", "dfa::hashmap_transitions_from_vec", "dfa::dfa_from_regex",
          "regex::do_firstpos", "regex::do_lastpos", "regex::do_followpos", "regex::RegexNode::nullable"]
+# table printers of the four emitters: a row, a level or a declaration they skip is a table the script's reader still consults
+# (in bash, through dynamic scoping, it then finds the CALLER's table of that name)
+PRINTER_MODULES = ("bash", "fish", "zsh", "pwsh")
 EXTRA_VALIDATORS = EXTRA_VALIDATORS + CORES
 DROPPERS = {"filter", "take_while", "skip_while", "skip", "take", "step_by", "retain", "dedup_by_key", "dedup"}
 
@@ -119,7 +122,7 @@ def render_def(df, budget):
     if df.kind in ("let", "bind"):
         pat = (node or {}).get("pat") or {}
         if df.kind == "let" and pat.get("k") == "PType":
-            return "<" + A.norm_ty(pat["ty"]) + ">" + pj
+            return "<" + re.sub(r"<.*", "", A.norm_ty(pat["ty"])).split("::")[-1] + ">" + pj
         if df.init is None:
             return "<uninit>" + pj
         if budget <= 0:
@@ -302,4 +305,11 @@ def validators(repo, extra=()):
     for q in extra:
         if q in repo.fns:
             vs[q] = repo.fns[q]
+    for q, f in repo.fns.items():
+        if f.module in PRINTER_MODULES and f.name != "make_string_constant":
+            vs[q] = f
     return vs
+
+
+def printers(repo):
+    return {q for q, f in repo.fns.items() if f.module in PRINTER_MODULES and f.name != "make_string_constant"}
